@@ -20,7 +20,12 @@ def default_judge(P, case, reals, gens, specs):
     """returns list of (kind, index, detail).  kind in {'violation','tie'}"""
     out = []
     for i, (r, g, s) in enumerate(zip(reals, gens, specs)):
-        if r[0] == "skip":
+        if r[0] == "skip" or i < case.tags.get("judge_from", 0):
+            continue        # (lines before `judge_from` only set the scene: other public calls made first on the same object)
+        if r[0] == "childq":
+            ok_c, why = core.judge_childq(r)
+            if not ok_c:
+                out.append(("violation", i, why))
             continue
         ok_s, _ = core.match(r, s)
         if not ok_s:
